@@ -358,3 +358,38 @@ def output_guarded_randomness() -> List[dict]:
             else:
                 obs.append(_ob("output_guard", name, n.lineno, "discharged", "", "no random draw under an output-setting guard"))
     return obs
+
+
+# ------------------------------------------------- C12: every request route of a node is gated by the node's power state
+def node_routes_gated(allow: Dict[str, str]) -> List[dict]:
+    """In `_init_request_manager` of Node and its subclasses every `rm.add_request(name, RequestType(...))` on the node's own
+    request manager must carry a validator (the node-is-on rule; `startup` carries node-is-off).  `allow` maps
+    'Class:route' -> reason for routes that are deliberately open."""
+    obs = []
+    repo = Repo.get()
+    node = repo.class_by_name("Node")
+    for fi in _functions():
+        if fi.name != "_init_request_manager" or fi.cls is None or node not in fi.cls.mro():
+            continue
+        # the node's own manager is the one obtained from super()._init_request_manager()
+        own = set()
+        for n in ast.walk(fi.node):
+            if isinstance(n, ast.Assign) and isinstance(n.value, ast.Call) and isinstance(n.value.func, ast.Attribute) \
+                    and n.value.func.attr == "_init_request_manager" and len(n.targets) == 1 and isinstance(n.targets[0], ast.Name):
+                own.add(n.targets[0].id)
+        for n in ast.walk(fi.node):
+            if not (isinstance(n, ast.Call) and isinstance(n.func, ast.Attribute) and n.func.attr == "add_request"
+                    and isinstance(n.func.value, ast.Name) and n.func.value.id in own and n.args):
+                continue
+            route = n.args[0].value if isinstance(n.args[0], ast.Constant) else ast.unparse(n.args[0])
+            rt = n.args[1] if len(n.args) > 1 else next((k.value for k in n.keywords if k.arg == "request_type"), None)
+            has_validator = isinstance(rt, ast.Call) and any(k.arg == "validator" for k in rt.keywords)
+            key = f"{fi.cls.name}:{route}"
+            name = f"route_gated@{fi.cls.name}:{route}"
+            if has_validator or key in allow:
+                obs.append(_ob("route_gated", name, n.lineno, "discharged", allow.get(key, ""), "route carries a power-state validator"))
+            else:
+                obs.append(_ob("route_gated", name, n.lineno, "failed",
+                               f"{fi.key} line {n.lineno}: the route `{route}` of {fi.cls.name}'s request manager has no validator: requests on it are "
+                               f"served whatever the node's power state", "route carries a power-state validator"))
+    return obs
